@@ -1,5 +1,6 @@
 import FxVerif.Proofs.C06
 import FxVerif.Proofs.C05Sorted
+import FxVerif.Proofs.C05Ext
 /-!
 # C05 — every outgoing transfer is in exactly one place and is settled exactly once
 
@@ -323,6 +324,79 @@ theorem fee_order_optimal (s0 : State) (h0 : IsInit s0) (ops : List Op) (t : Tok
     rw [filter_eq_self]; intro x hx; simpa using hel x hx
   rw [totalFee_eq_feeSum, totalFee_eq_feeSum, ← hl']
   exact feeSum_sublist_le_take (hsub.filter _) (Pairwise.sublist (filter_sublist) hd) _ (by rw [hl']; exact hlen)
+
+/-- `batch_nonce_fresh` (and bridge-call nonces): along every operation list the nonces of all batches ever created
+(ghost log `created`, in creation order) are exactly `1, 2, …, nextBatchId − 1` — so no nonce is ever issued twice, also
+after the batch that carried it was executed, cancelled or timed out — every stored batch is one of them, and the next
+successful `RequestBatch` issues a nonce no batch ever had.  Same for outgoing bridge calls. -/
+theorem batch_nonce_fresh (s0 : State) (h0 : IsInit s0) (ops : List Op) :
+    let s := (runExt s0 {} ops).1
+    let x := (runExt s0 {} ops).2
+    s = run s0 ops ∧
+    x.created.map (·.nonce) = range' 1 (s.nextBatchId - 1) ∧ (x.created.map (·.nonce)).Nodup ∧
+    (∀ b ∈ s.batches, b ∈ x.created) ∧
+    x.createdCalls.map (·.nonce) = range' 1 (s.nextCallId - 1) ∧ (x.createdCalls.map (·.nonce)).Nodup ∧
+    (∀ c ∈ s.calls, c ∈ x.createdCalls) ∧
+    (∀ t mf bf fr s' n, doReqBatch s t mf bf fr = (s', .ok n) → ∀ b ∈ x.created, b.nonce ≠ n) ∧
+    (∀ a r to d m cs s' n, doBridgeCall s a r to d m cs = (s', .ok n) → ∀ c ∈ x.createdCalls, c.nonce ≠ n) := by
+  have hn := N_run (N_init h0) ops
+  simp only
+  refine ⟨runExt_fst _ _ _, hn.nonces, by rw [hn.nonces]; exact nodup_range', hn.sub, hn.cnonces,
+    by rw [hn.cnonces]; exact nodup_range', hn.csub, ?_, ?_⟩
+  · intro t mf bf fr s' n h b hb hbn
+    have h1 := (reqBatch_ok h).1
+    have h2 : b.nonce ∈ range' 1 ((runExt s0 {} ops).1.nextBatchId - 1) := by
+      rw [← hn.nonces]; exact mem_map_of_mem hb
+    simp only [mem_range'_1] at h2
+    have := hn.npos
+    omega
+  · intro a r to d m cs s' n h c hc hcn
+    obtain ⟨_, _, h1⟩ := queued_is_supplied_call _ _ a r to d m cs n h
+    have h2 : c.nonce ∈ range' 1 ((runExt s0 {} ops).1.nextCallId - 1) := by
+      rw [← hn.cnonces]; exact mem_map_of_mem hc
+    simp only [mem_range'_1] at h2
+    have := hn.cpos
+    omega
+
+/-- `observed_execution_settles` (with the environment: every observed event is one the bridge contract can have
+produced — heights non-decreasing, `state_lastBatchNonces[token] < nonce`, `block.number < timeout`, operators read from
+FxBridgeLogic.sol): along every admissible operation list, when the external chain executes a batch, fxcore still holds
+it: the claim is applied (no panic, so the bridge does not stall), every transfer of the batch is logged as executed, and
+— for every continuation, admissible or not — none of them is ever refunded.  The proof needs that an executed batch
+cancels only lower nonces *of its own token* and that time-outs are taken at the observed external height only. -/
+theorem observed_execution_settles (s0 : State) (h0 : IsInit s0) (ops : List Op) (h t n : Nat)
+    (ha : AdmissibleRun s0 {} (ops ++ [.observe h (.batch t n)])) :
+    ∃ b ∈ (run s0 ops).batches, b.token = t ∧ b.nonce = n ∧
+      (doObserve (run s0 ops) h (.batch t n)).2 = .ok ((run s0 ops).eventNonce + 1) ∧
+      ∀ tx ∈ b.txs, ∀ ops2 : List Op, ∀ e ∈ (run s0 (ops ++ [.observe h (.batch t n)] ++ ops2)).settled,
+        e.isCall = false → e.id = tx.id → e.how = .executed := by
+  obtain ⟨ha1, ha2⟩ := admissibleRun_append ha
+  have hj := J_run (J_init h0) ops ha1
+  rw [runExt_fst] at hj
+  obtain ⟨b, hb, hbt, hbn, hok, hlog⟩ := admissible_execution_applies_aux hj ha2.1
+  refine ⟨b, hb, hbt, hbn, hok, fun tx htx ops2 e he hc hid => ?_⟩
+  have hmem : (⟨false, tx.id, .executed, 0, [(tx.token, tx.amount + tx.fee)]⟩ : Settle)
+      ∈ (run s0 (ops ++ [.observe h (.batch t n)] ++ ops2)).settled := by
+    rw [run_append, run_append]
+    obtain ⟨l, hl⟩ := settled_grows_run (run (run s0 ops) [.observe h (.batch t n)]) ops2
+    rw [hl]
+    exact mem_append_left _ (hlog tx htx)
+  cases hhow : e.how with
+  | executed => rfl
+  | refunded =>
+    exact (executed_never_refunded s0 h0 _ _ e hmem he rfl hc hid.symm rfl hhow).elim
+
+/-- non-vacuity of the environment hypothesis: an admissible run in which two batches of different tokens are in flight
+and the later one is executed first, then the earlier one -/
+example : AdmissibleRun (init 2 [((0, 0), 100), ((0, 1), 100)] {}) {}
+    [.observe 10 .other,
+     .send 0 "0x0000000000000000000000000000000000000001" 0 5 2,
+     .send 0 "0x0000000000000000000000000000000000000001" 1 5 2,
+     .reqBatch 0 1 0 "0x0000000000000000000000000000000000000002", .block 1,
+     .reqBatch 1 1 0 "0x0000000000000000000000000000000000000002",
+     .observe 11 (.batch 1 2), .observe 12 (.batch 0 1)] := by
+  simp only [AdmissibleRun, admissible]
+  decide
 
 /-- non-vacuity: a reachable state with a transfer in the pool, one in a batch, one executed and one refunded -/
 example : ∃ ops : List Op, let s := run (init 1 [((0, 0), 100)] {}) ops
